@@ -212,10 +212,16 @@ type chunkReader struct {
 	nreads int
 	closed *bool
 	fired  bool
+	// stallAfter > 0: once this many bytes were handed out the runtime goes silent - Read blocks until the
+	// connection is closed (which is what cancelling the request does)
+	stallAfter int
 }
 
 func (r *chunkReader) Read(p []byte) (int, error) {
 	r.nreads++
+	if r.stallAfter > 0 && r.off >= r.stallAfter && !(r.closed != nil && *r.closed) {
+		sched.Block("runtime-silent", nil, func() bool { return r.closed != nil && *r.closed })
+	}
 	if r.closed != nil && *r.closed {
 		return 0, io.ErrClosedPipe
 	}
@@ -262,9 +268,13 @@ type copyCase struct {
 	chunk     int
 	failRead  int
 	failWrite int
+	stall     int // the runtime goes silent after this many bytes (0: never)
 }
 
 func (c copyCase) String() string {
+	if c.stall > 0 {
+		return fmt.Sprintf("streaming=%v limit=%d size=%d chunk=%d runtime-silent-after=%d", c.streaming, c.limit, c.size, c.chunk, c.stall)
+	}
 	return fmt.Sprintf("streaming=%v limit=%d size=%d chunk=%d failRead=%d failWrite=%d", c.streaming, c.limit, c.size, c.chunk, c.failRead, c.failWrite)
 }
 
@@ -295,7 +305,7 @@ func runCopy(cc copyCase, resetAfterWrites int) func() {
 		r := &copyRec{w: &recWriter{hdr: http.Header{}, failAt: cc.failWrite}, payload: pattern(cc.size), resetAt: resetAfterWrites, start: sched.NowNs()}
 		sched.Cur().Values["rec"] = r
 		closed := false
-		rd := &chunkReader{data: r.payload, chunk: cc.chunk, failAt: cc.failRead, closed: &closed}
+		rd := &chunkReader{data: r.payload, chunk: cc.chunk, failAt: cc.failRead, closed: &closed, stallAfter: cc.stall}
 		r.rd = rd
 		interrupted := make(chan *interop.Reset)
 		sendResp := make(chan *interop.InvokeResponseMetrics)
@@ -314,6 +324,9 @@ func runCopy(cc copyCase, resetAfterWrites int) func() {
 				if vtrySend(interrupted, reset) {
 					r.resetHit = true
 					vrecvReset(interrupted)
+				}
+				if cc.stall > 0 {
+					closed = true // the reset goes on to kill the runtime: its connection is gone
 				}
 			})
 		}
@@ -468,7 +481,7 @@ func copyScenarios(tier string) []hx.Scenario {
 					}
 				}
 				res.Distinct = int64(len(res.Outcomes))
-				res.Samples = append(res.Samples, map[string]any{"case": copyCase{streaming, lim, int(lim) + 1, 7, 0, 0}.String()})
+				res.Samples = append(res.Samples, map[string]any{"case": copyCase{streaming, lim, int(lim) + 1, 7, 0, 0, 0}.String()})
 				return res
 			}})
 		}
@@ -525,6 +538,15 @@ func rateScenarios(tier string) []hx.Scenario {
 				return hx.ExploreScenario(c, "C17", name, sched.Options{Bound: bound, MaxSteps: 300000, BoundAll: true, HorizonClause: "c"}, body, judgeCopy(cc, co.rate, co.burst))
 			}})
 		}
+	}
+	// the runtime goes silent in the middle of its response; a reset must still end the copy (Truncated)
+	for k := 0; k <= 4; k++ {
+		k := k
+		cc := copyCase{streaming: true, limit: -1, size: 300 * 1024, chunk: 32 * 1024, stall: 100 * 1024}
+		name := fmt.Sprintf("silent-runtime/%s/reset-after-writes=%d/B=%d", cc.String(), k, b)
+		out = append(out, hx.Scenario{Name: name, Run: func(c *hx.Ctx) *hx.ScenarioResult {
+			return hx.ExploreScenario(c, "C17", name, sched.Options{Bound: b, MaxSteps: 300000, BoundAll: true, HorizonClause: "c"}, runCopy(cc, k), judgeCopy(cc, interop.ResponseBandwidthRate, interop.ResponseBandwidthBurstSize))
+		}})
 	}
 	return out
 }
